@@ -59,6 +59,11 @@ impl ContentResolver {
             root.named_files()
         );
 
+        // A new root replaces the old one: nothing resolved through the old
+        // manifest may survive it
+        self.path_cache.clear();
+        self.file_data_id_map.clear();
+
         // Build FileDataID map if supported
         for block in &root.blocks {
             for entry in &block.records {
@@ -81,6 +86,9 @@ impl ContentResolver {
 
         let encoding = EncodingFile::parse(data)
             .map_err(|e| StorageError::Resolver(format!("Failed to parse encoding file: {e}")))?;
+
+        // A new encoding table replaces the old one
+        self.content_cache.clear();
 
         // Build content key cache from pages
         let mut cached_entries = 0;
